@@ -844,6 +844,23 @@ class Verifier(Stmts):
         # hint from the committed baseline: the stage that discharged this obligation last time is tried first (an ordering
         # only: every stage is sound, and the full ladder follows if the hinted stage does not succeed)
         hint = (getattr(self, 'stage_hints', None) or {}).get(ob.name, ())
+        if any('cvc5' in h for h in hint) and use_cvc5:
+            # this obligation needed the second solver last time: ask it first (generous budget), then the usual ladder
+            s_all = self._solver(1000)
+            for h_ in ob.hyps:
+                s_all.add(h_)
+            s_all.add(z3.Not(ob.goal))
+            keep_t = self.timeout_ms
+            self.timeout_ms = 90000
+            try:
+                r_c = self.run_cvc5(s_all)
+            finally:
+                self.timeout_ms = keep_t
+            if r_c == 'unsat':
+                ob.status, ob.backend = 'discharged', 'cvc5'
+                ob.seconds = time.time() - t0
+                self.solver_seconds += ob.seconds
+                return ob
         if any(h.startswith('z3/instantiated') for h in hint):
             try:
                 from .inst import instantiate
